@@ -1,6 +1,7 @@
 package litefs
 
 import (
+	"bytes"
 	"context"
 	"os"
 
@@ -194,4 +195,46 @@ func VerifC02Journal() {
 		}
 		rt.Check(ren >= 0 && inval > ren, "transaction file renamed into place before the journal is invalidated")
 	}
+}
+
+// VerifC02AfterModeChange: a replica in WAL mode applies a transaction that
+// switches the database to rollback-journal mode, is then promoted and commits a
+// rollback-journal transaction. The captured file must contain the written page.
+func VerifC02AfterModeChange() {
+	ctx := context.Background()
+	w, _ := verifC01Replica(1, true)
+	db := w.db
+	pos0 := db.Pos()
+	// the primary's mode-change transaction: page 1 with read/write version 1
+	p1 := rt.Bytes("modechange", verifP)
+	verifHeaderPage(p1, 1, false)
+	hdr := ltx.Header{PageSize: verifP, Commit: 1, MinTXID: 42, MaxTXID: 42, PreApplyChecksum: pos0.PostApplyChecksum, NodeID: 99}
+	rt.Assume(w.store.ID() != 99)
+	file := verifEncodeLTX(hdr, []uint32{1}, [][]byte{p1}, verifSpecChecksum([][]byte{p1}))
+	rt.Check(w.store.processLTXStreamFrame(ctx, &LTXStreamFrame{Name: "db"}, bytes.NewReader(file)) == nil, "replica applies the mode-change transaction")
+	// promotion (what monitorLease does on acquiring the lease): recover, then hold the lease
+	rt.Check(w.store.Recover(ctx) == nil, "Recover on promotion")
+	w.lease = &verifLease{}
+	w.store.lease = w.lease
+	pos1 := db.Pos()
+
+	// SQLite, now in rollback-journal mode, commits a transaction that rewrites page 1
+	jf, err := db.CreateJournal()
+	rt.Check(err == nil, "CreateJournal on the new primary")
+	jh := make([]byte, 512)
+	copy(jh, SQLITE_JOURNAL_HEADER_STRING)
+	rt.Check(db.WriteJournalAt(ctx, jf, jh, 0, 1) == nil, "journal header")
+	dbf, err := db.OpenDatabase(ctx)
+	rt.Check(err == nil, "OpenDatabase")
+	np := rt.Bytes("new", verifP)
+	verifHeaderPage(np, 1, false)
+	rt.Check(db.WriteDatabaseAt(ctx, dbf, np, 0, 1) == nil, "page write")
+	rt.Check(db.RemoveJournal(ctx) == nil, "commit by deleting the journal")
+	rt.Check(len(w.exits) == 0, "no fatal exit")
+	pos2 := db.Pos()
+	rt.Check(pos2.TXID == pos1.TXID+1, "position advances by one")
+	x, derr := verifDecodeLTX(db.LTXPath(pos2.TXID, pos2.TXID))
+	rt.Check(derr == nil, "transaction file verifies")
+	rt.Check(len(x.pgnos) == 1 && x.pgnos[0] == 1 && verifSamePage(x.pages[0], np), "the transaction file contains the page SQLite wrote (journal mode tracked after a replicated mode change)")
+	rt.Reach("c02.modechange")
 }
